@@ -732,7 +732,9 @@ func (w *World) Files(oc *OutputCfg, ww *WeatherWorld) FileSet {
 	fs[pdir+n] = c
 	fs[pdir+"fert_"+w.Loc+".txt"] = w.FertFile()
 	fs[pdir+"irr_"+w.Loc+".txt"] = w.IrrFile()
-	fs[pdir+"til_"+w.Loc+".txt"] = w.TillFile()
+	if !(w.NoTilFile && len(w.Till) == 0) {
+		fs[pdir+"til_"+w.Loc+".txt"] = w.TillFile() // (the one input file a project may do without)
+	}
 	n, c = w.MeasFile()
 	fs[pdir+n] = c
 	fs[pdir+"automan.txt"] = w.AutoFile()
